@@ -129,11 +129,14 @@ CHECKS = {
         text=("Lean (model of the five validate_* functions over the three extracted tables): C13_order (reported discriminators are a sub-sequence of document "
               "order), C13_complete (nothing missing unless below a forbidden node), C13_pruned_*, C13_status / C13_status_freetext (own status x parent via the "
               "documented tables, FILLED/EMPTY suffix), C13_dominate_optional (at any depth) / _required, C13_only_not_implemented (the only abort is the documented "
-              "one). The tables are proved equal to the documented mapping (mapOwn_eq_spec, combine_eq_spec). The model takes node-expression evaluation results as "
-              "inputs (C04-C09) and is compared with validate_deep_anwendungshandbuch on random deep AHBs; all clauses are also checked directly on the implementation."),
+              "one). The tables are proved equal to the documented mapping (mapOwn_eq_spec, combine_eq_spec). C13Full (end to end): a second model whose nodes carry the "
+              "expression TEXT calls the modelled scanner/parser/resolver/evaluator (C02-C10) exactly where validation.py does; C13_full_bridge proves it equal to the table walk "
+              "on the evaluated tree whenever those evaluations succeed, so C13_full_order / C13_full_complete hold for it. Both models are compared with "
+              "validate_deep_anwendungshandbuch on random deep AHBs (the end-to-end one gets only texts and the content evaluation result); all clauses are also checked "
+              "directly on the implementation, with evaluators that suspend and with evaluate_<key>-method evaluators."),
         design_ref="§5 C13",
-        note=NOTE_COMMON + "Modelled rather than verified: MAUS data classes, asyncio.gather order (C12).",
-        technique="Lean 4 proof (mutual structural induction over the AHB tree, kernel-decided table facts) + full-result correspondence",
+        note=NOTE_COMMON + "Modelled rather than verified: MAUS data classes, asyncio.gather order (C12). Inside the class of C05's known finding K1 the end-to-end model may group a same-operator run differently from Lark; AHBs containing such an expression are counted separately in the end-to-end correspondence.",
+        technique="Lean 4 proof (mutual structural induction over the AHB tree, kernel-decided table facts, bridge theorem text-walk = table-walk) + full-result correspondence (table walk and end to end)",
     ),
     "C14": dict(
         category="proof",
